@@ -48,6 +48,38 @@ theorem results_correct {s : St} (hreach : Reach .fixed init s) :
   obtain ⟨_, hf⟩ := fixedInv_reach baseInv_init fixedInv_init hreach
   exact ⟨hf.res, hf.pre⟩
 
+/-- **What `GetX509SVID` hands out is the latest installed fetch** (lock level, either variant, any
+interleaving with rotation).  `good` lists the successful fetches, newest first.  In every reachable
+state `currentSVID` is the newest one — except in the window where the Run goroutine carries a newer
+token `w` towards the write lock, where it is the one before (`ready_no_deadlock` shows the window
+always closes) — a reader copies exactly `currentSVID`, and every value ever returned is some
+successful fetch. -/
+theorem served_is_latest_installed {v : Variant} {s : St} (hreach : Reach v init s) :
+    (s.run.carrying = none → s.svid = s.good.head?) ∧
+    (∀ w, s.run.carrying = some w → ∃ rest, s.good = w :: rest ∧ s.svid = rest.head?) ∧
+    (∀ i t, s.cons[i]? = some .gHold → step v s (.cons i) = some t → t.cons[i]? = some (.gUnlock s.svid)) ∧
+    (∀ c ∈ s.cons, ∀ w, (c = .gUnlock (some w) ∨ c = .gDone (some w)) → w ∈ s.good) := by
+  have hg := goodInv_reach goodInv_init hreach
+  refine ⟨?_, ?_, ?_, hg.results⟩
+  · intro hc; have := hg.carry; rw [hc] at this; exact this
+  · intro w hc; have := hg.carry; rw [hc] at this; exact this
+  · intro i t hi hs
+    simp only [step, consStep, hi, Option.some.injEq] at hs
+    subst hs
+    have : i < s.cons.length := by
+      cases h : s.cons[i]? with
+      | none => rw [h] at hi; cases hi
+      | some _ => exact (List.getElem?_eq_some_iff.mp h).1
+    simp [this]
+
+/-- Non-vacuity: rotation has fetched token 1 and waits for a parked reader; the SVID served is 0. -/
+example : ∃ s, Reach .fixed init s ∧ s.run = .rotPendLock 1 ∧ s.svid = some 0 ∧ s.good = [1, 0] ∧
+    s.cons = [.gHold] := by
+  refine ⟨_, .tail .run (.tail (.reply true) (.tail .renew (.tail (.cons 0) (.tail (.cons 0) (.tail .callGet
+    (.tail .run (.tail .run (.tail .run (.tail .run (.tail .run (.tail (.reply true) (.tail .run (.tail .run
+    (.tail .run (.tail .callRun (.refl _) rfl) rfl) rfl) rfl) rfl) rfl) rfl) rfl) rfl) rfl) rfl) rfl) rfl) rfl) rfl) rfl,
+    rfl, rfl, rfl, rfl⟩
+
 /-- **The code before the repair deadlocks**: `GetX509SVID` first, then `Run`.  The state is reachable
 in the model of the old code, and from it *no* continuation — more callers, cancellations, anything
 — ever lets `Run` leave `Lock()`, closes `readyCh`, or lets that `GetX509SVID` return. -/
